@@ -53,6 +53,10 @@ class Injected(Exception):
     """Raised by bombs and failpoints (user code raising inside elaboration)."""
 
 
+class InjectedAbort(BaseException):
+    """A non-`Exception` interruption of user code (the Ctrl-C / SystemExit family)."""
+
+
 def digest(pkg) -> str:
     return hashlib.sha256(canon(pkg)).hexdigest()[:16]
 
@@ -107,7 +111,9 @@ def sharing_design(design):
     d["modules"] = [m for m in d["modules"] if m["name"] in ("Lf", "Good")]
     d["modules"].append({"name": "Share", "style": "proc", "ports": [], "bports": [], "sigs": [["k", 1], ["w", 2]], "buns": [["b", "B1"]],
                          "insts": [{"name": "g", "kind": "single", "of": ["mod", "Good"], "tag": None, "conns": {"k": ["sig", "k"]}},
-                                   {"name": "l", "kind": "single", "of": ["mod", "Lf"], "tag": None, "conns": {"a": ["sig", "w"], "b": ["sig", "k"], "bp": ["bun", "b"]}}]})
+                                   {"name": "l", "kind": "single", "of": ["mod", "Lf"], "tag": None, "conns": {"a": ["sig", "w"], "b": ["sig", "k"], "bp": ["bun", "b"]}},
+                                   {"name": "l2", "kind": "single", "of": ["mod", "Lf"], "tag": None, "conns": {"a": ["pref", "l", "a"], "b": ["nc", 1, None], "bp": ["pref", "l", "bp"]}},
+                                   {"name": "l3", "kind": "single", "of": ["mod", "Lf"], "tag": None, "conns": {"a": ["sig", "w"], "b": ["nc", 2, None], "bp": ["nc", 3, None]}}]})
     d["top"] = "Share"
     return d
 
@@ -299,7 +305,7 @@ def bomb_scenario(rec, design, position, target, variant):
 
     def elaborate_module(self, module):
         if module.name == tname:
-            raise Injected(f"user code raised while visiting {target}")
+            raise (InjectedAbort if variant == 1 else Injected)(f"user code raised while visiting {target}")
         return module
 
     Bomb = type("Bomb", (ElabPass,), {"elaborate_module": elaborate_module})
@@ -322,7 +328,7 @@ def bomb_scenario(rec, design, position, target, variant):
     continuations(rec, log, sess, design, uid, scenario, repair=lambda: None, repaired_design=design, apis=("retry-to_proto",))
 
 
-def real_fault_scenario(rec, design, fault, variant):
+def real_fault_scenario(rec, design, fault, variant, repair_mode="edit-offender"):
     import hdl21 as h
 
     name, plant, repair_spec = fault
@@ -335,7 +341,8 @@ def real_fault_scenario(rec, design, fault, variant):
     except Exception:
         rec.count("scenario.fault-rejected-at-construction")
         return
-    scenario = {"source": "design-fault", "where": name, "offender": "Mid" if name != "extra-connection" else "Top", "design_variant": variant}
+    scenario = {"source": "design-fault", "where": name, "offender": "Mid" if name != "extra-connection" else "Top", "design_variant": variant,
+                "repair": repair_mode}
     rec.case(key=jhash(scenario), nontrivial=True, sample=scenario if rec.evaluations % 60 == 1 else None)
     log = Log()
     top = sess.built.modules[bad["top"]]
@@ -358,6 +365,22 @@ def real_fault_scenario(rec, design, fault, variant):
             mb.insts = {k: v for k, v in mb.attrs.items() if hasattr(v, "conns")}
             inst.connect(port, mb.expr(e))
 
+    if repair_mode == "repoint-ancestor":
+        # the designer leaves the faulty module alone and re-points the top's instance at a corrected copy of it
+        repaired_design = copy.deepcopy(design)
+        refsem.get_module(repaired_design, "Mid")["name"] = "Mid2"
+        repaired_design["modules"] = [m for m in repaired_design["modules"] if m["name"] != "Wrap"]
+        for i in refsem.get_module(repaired_design, "Top")["insts"]:
+            if i["name"] == "m0":
+                i["of"] = ["mod", "Mid2"]
+
+        def repair():
+            mb = build.ModBuilder(repaired_design, refsem.get_module(repaired_design, "Mid2"), sess.built)
+            mb.declare()
+            mb.connect_all()
+            mid2 = mb.finish()
+            top.m0 = h.Instance(of=mid2)(k=top.j)
+
     continuations(rec, log, sess, bad, uid, scenario, repair=repair, repaired_design=repaired_design)
 
 
@@ -375,6 +398,8 @@ def generator_scenario(rec, mode):
     def body(params: P) -> h.Module:
         runs[0] += 1
         if runs[0] == 1:
+            if mode.endswith("-abort"):
+                raise InjectedAbort("generator body interrupted")
             raise Injected("generator body raised")
         m = h.Module()
         m.add(h.Port(width=params.w), name="a")
@@ -407,7 +432,7 @@ def generator_scenario(rec, mode):
     scenario = {"source": "generator-body", "where": mode, "body_runs": runs, "body_runs_expected": 2}
     rec.case(key=jhash({"source": "generator-body", "where": mode, "n": n % 3}), nontrivial=True, sample={"source": "generator-body", "mode": mode} if n % 40 == 0 else None)
     log = Log()
-    if mode == "direct":
+    if mode.startswith("direct"):
         log.call("generator-first", "G", True, False, lambda: G(w=2) and None)
         log.call("generator-retry", "G", True, False, lambda: G(w=2) and None)
     else:  # called from inside another generator
@@ -470,7 +495,7 @@ def failpoint_scenario(rec, design, fp, variant):
     def on_line(c, ln):
         if c is code and ln == line and not fired[0]:
             fired[0] = True
-            raise Injected(f"asynchronous exception at {clsname}.{fname}:{line}")
+            raise (InjectedAbort if (line + variant) % 2 else Injected)(f"asynchronous exception at {clsname}.{fname}:{line}")
         return mon.DISABLE if c is not code else None
 
     scenario = {"source": "failpoint", "where": f"{clsname}.{fname}:{line}", "offender": "Mid", "design_variant": variant}
@@ -510,8 +535,10 @@ def run(ctx, rec):
             for t in targets:
                 work.append(("bomb", d, pos, t, variant))
         for fault in real_faults():
-            work.append(("real", d, fault, variant))
-    for mode in ("direct", "nested", "unnameable"):
+            work.append(("real", d, fault, variant, "edit-offender"))
+            if fault[0] != "extra-connection":
+                work.append(("real", d, fault, variant, "repoint-ancestor"))
+    for mode in ("direct", "nested", "unnameable", "direct-abort", "nested-abort"):
         for _ in range(3):
             work.append(("gen", mode))
     fps = failpoint_lines()
@@ -529,7 +556,7 @@ def run(ctx, rec):
         if w[0] == "bomb":
             bomb_scenario(rec, w[1], w[2], w[3], w[4])
         elif w[0] == "real":
-            real_fault_scenario(rec, w[1], w[2], w[3])
+            real_fault_scenario(rec, w[1], w[2], w[3], w[4])
         elif w[0] == "gen":
             generator_scenario(rec, w[1])
         else:
